@@ -14,7 +14,8 @@ from harness import util
 
 THEOREMS = ['C04_tref_split_invariance', 'C04_tref_split_invariance_moist', 'C04_tref_split_closed_form',
             'C04_H_is_explicit_counterpart', 'C04_lnps_invariance', 'C04_effective_pgf_invariant',
-            'C04_effective_pgf_invariant_dry', 'C04_effective_pgf_cloud_defect', 'C04_hyps_satisfiable',
+            'C04_effective_pgf_invariant_dry', 'C04_effective_pgf_cloud_defect', 'C04_column_commutes',
+            'C04_temperature_modal_invariance', 'C04_divergence_invariance', 'C04_vorticity_invariance', 'C04_hyps_satisfiable',
             'C04_tref_split_cloud_refuted', 'C04_tref_split_invariance_R']
 LEVEL = 'proof'
 LEVEL_TEXT = ('machine-checked theorems (Coq) for every field, every layer count K>=1, all level sets, all column data and '
@@ -134,7 +135,7 @@ def generate(ctx):
         ctx.count('corr:%s K=%d' % (cls, K))
         yield 'corr', {'cls': cls, 'grid': 'g5' if (quick or r % 4) else 'g7', 'K': K, 'b': levels(K, r), 'Tref': profile(K, bool(uni)),
                        'oro': oro, 'ntr': ntr, 'va': va, 'seed': int(rng.integers(1 << 30)),
-                       'nodes': 4 if quick else -1, 'sparse': r % 2}
+                       'nodes': 4 if quick else (-1 if r in (2, 5) else 10), 'sparse': r % 2}
     # direct calls of _t_omega_over_sigma_sp on arbitrary small-rational arrays
     for K in ([1, 3] if quick else [1, 2, 3, 4, 6]):
         yield 't_omega', {'K': K, 'b': levels(K, K), 'seed': int(rng.integers(1 << 30))}
